@@ -92,4 +92,3 @@ package tdpos
 //@   local tipHeight int64
 //@   at tdposSchedule.calHisValidators#1 assert recorded_history_only_below_the_tip: $0 == height && tipHeight > height
 //@   at tdposSchedule.calHisValidators#2 assert same_term_as_the_tip_uses_the_tips_list: $0 == tipHeight && tipHeight <= height
-//@   at tdposSchedule.minerScheduling assert term_of_the_blocks_own_time: $0 == timestamp
